@@ -26,7 +26,7 @@ SHARD_TIMEOUT = {"quick": 900, "thorough": 3600}
 def plan(tier, seed):
     n = 14
     ngen = 160 if tier == "quick" else 1500
-    nvar = 5 if tier == "quick" else 10
+    nvar = 6 if tier == "quick" else 11
     specs = [{"name": f"gen-{i}", "mode": "gen", "n": ngen, "nvar": nvar, "rseed": seed * 7919 + i} for i in range(n)]
     specs.append({"name": "corpus", "mode": "corpus", "nvar": 3 if tier == "quick" else 8, "rseed": seed})
     if tier == "thorough":
@@ -63,7 +63,7 @@ def check_layouts(toks, directive, rnd, nvar, origin, counters):
     bn = nf(b[1])
     bg = _gen(S, b[1])
     vs = []
-    styles = ["lines", "random", "minimal", "marked", "tabs", "marked", "random", "marked", "minimal", "marked"]
+    styles = ["lines", "random", "minimal", "marked", "tabs", "samepos", "marked", "random", "marked", "minimal", "marked"]
     for vi in range(nvar):
         style = styles[vi % len(styles)]
         sd = rnd.randrange(1 << 30)
